@@ -702,4 +702,1013 @@ theorem invD_readFromStream {c : Conn} (h : InvD false [] c) (hc : InvC c) :
       (invC_with_fb hc _ _) _).of_eq_fst heq
     split <;> exact h1
 
+/-! ### Channel allocation -/
+
+theorem self_mem_insertSorted {α : Type} (k : Nat) (v : α) (m : List (Nat × α)) :
+    (k, v) ∈ insertSorted k v m := by
+  induction m with
+  | nil => simp [insertSorted]
+  | cons q r ih =>
+    obtain ⟨k', v'⟩ := q
+    unfold insertSorted
+    split
+    · exact List.mem_cons_self
+    · split
+      · exact List.mem_cons_self
+      · exact List.mem_cons_of_mem _ ih
+
+theorem mem_insertSorted_of_mem {α : Type} {k : Nat} (v : α) {p : Nat × α} {m : List (Nat × α)}
+    (hp : p ∈ m) (hk : p.1 ≠ k) : p ∈ insertSorted k v m := by
+  induction m with
+  | nil => cases hp
+  | cons q r ih =>
+    obtain ⟨k', v'⟩ := q
+    unfold insertSorted
+    split
+    · exact List.mem_cons_of_mem _ hp
+    · split
+      · rename_i e
+        rcases List.mem_cons.mp hp with e' | hp
+        · subst e'; exact absurd e.symm hk
+        · exact List.mem_cons_of_mem _ hp
+      · rcases List.mem_cons.mp hp with e' | hp
+        · subst e'; exact List.mem_cons_self
+        · exact List.mem_cons_of_mem _ (ih hp)
+
+/-- The state right after a channel was allocated (`newCh` of `ConnC18`): the new link is alive
+    and owned by the new slot. -/
+theorem invD_newCh {c : Conn} (h : InvD false [] c) (hlt : ∀ p ∈ c.links, p.1 < c.nextLid)
+    {i : Nat} (hi : i ∉ c.slots.map (·.1)) (a : Slots.Slots) (rest : List (Option Nat)) :
+    InvD false [] (newCh c a rest i) := by
+  have e1 : ∀ j, j ≠ c.nextLid → getLink (newCh c a rest i) j = getLink c j :=
+    fun j hj => getLink_app_ne (c := c) (c' := newCh c a rest i) rfl (fun e => hj e.symm)
+  have e2 := getLink_app_self (c := c) (c' := newCh c a rest i) rfl hlt
+  refine ⟨h.dead, ?_, fun j hj => ?_, fun j hj => ?_, fun hd => by cases hd⟩
+  · show (List.map (fun p : Nat × Link => p.1) (c.links ++ [(c.nextLid, _)])).Nodup
+    rw [List.map_append, List.nodup_append]
+    refine ⟨h.nodup, by simp, fun x hx y hy => ?_⟩
+    obtain ⟨p, hp, ep⟩ := List.mem_map.mp hx
+    have hy' : y = c.nextLid := by simpa using hy
+    have := hlt p hp
+    intro exy
+    rw [← ep, hy'] at exy
+    omega
+  · show j = 0 ∨ j ∈ [] ∨ j ∈ (insertSorted i { lid := c.nextLid } c.slots).map (·.2.lid)
+    by_cases ej : j = c.nextLid
+    · exact Or.inr (Or.inr (List.mem_map.mpr ⟨_, self_mem_insertSorted i _ _, ej.symm⟩))
+    · rw [e1 j ej] at hj
+      rcases h.own j hj with e | e | e
+      · exact Or.inl e
+      · cases e
+      · obtain ⟨p, hp, ep⟩ := List.mem_map.mp e
+        refine Or.inr (Or.inr (List.mem_map.mpr ⟨p, mem_insertSorted_of_mem _ hp (fun e => ?_), ep⟩))
+        exact hi (List.mem_map.mpr ⟨p, hp, e⟩)
+  · by_cases ej : j = c.nextLid
+    · subst ej; rw [e2] at hj; cases hj
+    · rw [e1 j ej] at hj ⊢; exact h.ff j hj
+
+theorem invD_ite {d : Bool} {X : List Nat} {α : Type} {p : Prop} [Decidable p] {a b : Conn × α}
+    (ha : p → InvD d X a.1) (hb : ¬ p → InvD d X b.1) : InvD d X (if p then a else b).1 := by
+  split
+  · exact ha ‹_›
+  · exact hb ‹_›
+
+theorem invD_allocateLoop {bd : Nat} {t : Bool} {c : Conn} (h : InvD false [] c) (hc : InvC c)
+    (hl : InvL bd t c) (fuel : Nat) : InvD false [] (allocateLoop fuel c).1 := by
+  induction fuel generalizing c with
+  | zero => exact h
+  | succ fuel ih =>
+    unfold allocateLoop
+    split
+    · split <;> exact h
+    · rename_i req rest hreq
+      dsimp only
+      cases req
+      case' none =>
+        have hsp := insertNone_open c.alloc
+        dsimp only
+        generalize Slots.insertNone c.alloc = p at hsp ⊢
+      case' some id =>
+        have hsp := insertSome_open c.alloc id
+        dsimp only
+        generalize Slots.insertSome c.alloc id = p at hsp ⊢
+      all_goals
+        obtain ⟨a, res⟩ := p
+        obtain ⟨hok, hno⟩ := hsp
+        dsimp only at hok hno ⊢
+        have d2 : InvD false [] { c with allocReq := rest, allocSrc := c.allocSrc.dec, alloc := a } := by
+          d_same h
+        have l2 : InvL bd t { c with allocReq := rest, allocSrc := c.allocSrc.dec, alloc := a } := by
+          invL_same hl
+        have hfresh : ∀ label, lookupS label c.handles ≠ some c.nextLid := by
+          intro label hl'
+          exact Nat.lt_irrefl _ (hl.a.h_lt label _ hl')
+        split
+        · exact d2
+        · rename_i i
+          obtain ⟨hid, hopen⟩ := hok i rfl
+          have hk : i ∉ c.slots.map (·.1) := by
+            intro hm
+            obtain ⟨p, hp, e⟩ := List.mem_map.mp hm
+            exact hid (e ▸ hc.sok.keys_open p hp)
+          have d3 := invD_newCh h hl.a.links_lt hk a rest
+          have c3 : InvC (newCh c a rest i) := (pres_newChannel hid hopen _ rest c.allocSrc.dec hc).1
+          have l3 := invL_newCh hl a rest i
+          have hlook : lookupN i (newCh c a rest i).slots = some { lid := c.nextLid } :=
+            (lookupN_insertSorted i i _ _).trans (if_pos rfl)
+          refine invD_ite (fun _ => ?_) (fun _ => invD_ite (fun _ => d3) (fun hlen => ?_))
+          · refine ih ?_ ?_ ?_
+            · refine invD_setLink' (invD_removeSlot d3 c3.sok.keys_nodup hlook) _ _
+                (fun hx => by cases hx) (fun _ => ?_) (fun y hy => ?_)
+              · show (getLink (removeSlot (newCh c a rest i) i) c.nextLid).fifo = []
+                rw [getLink_congr (c := newCh c a rest i) (c' := removeSlot (newCh c a rest i) i) rfl,
+                  getLink_app_self (c := c) (c' := newCh c a rest i) rfl hl.a.links_lt]
+              · rcases List.mem_cons.mp hy with e | e
+                · exact Or.inr ⟨e, rfl⟩
+                · cases e
+            · exact ((pres_removeSlot_empty (s := { lid := c.nextLid }) hlook rfl).then_core
+                (core_setLink _ _ _) c3).1
+            · refine invL_allocFail l3 i c.nextLid (Nat.lt_succ_self _) ?_ hfresh ?_
+              · intro p hp e
+                rcases mem_insertSorted hp with e' | hp
+                · subst e'; rfl
+                · have := hl.b.lids_lt p hp; omega
+              · intro hl'; exact Nat.lt_irrefl _ (hl.a.r_lt _ hl')
+          · refine ih (by d_same d3) ⟨c3.open_nodup, c3.sok, c3.qi⟩
+              (invL_with_allocRep l3 _ hlen (fun lid e => ?_))
+            injection e with e
+            subst e
+            exact ⟨Nat.lt_succ_self _, newCh_link hl a rest i, hfresh⟩
+        · rename_i hp1 hp2
+          have c2 : InvC { c with allocReq := rest, allocSrc := c.allocSrc.dec, alloc := a } :=
+            (pres_with_alloc (c := c) (a := a) (hno (fun i hi => hp2 i hi)) rest c.allocSrc.dec hc).1
+          refine invD_ite (fun _ => ih d2 c2 l2) (fun _ => invD_ite (fun _ => d2) (fun hlen => ?_))
+          exact ih (by d_same d2) ⟨c2.open_nodup, c2.sok, c2.qi⟩
+            (invL_with_allocRep l2 _ hlen (fun lid e => by cases e))
+
+/-! ### Events, (de/re)registration, poll -/
+
+theorem invD_handleEvent {bd : Nat} {t : Bool} {c : Conn} (h : InvD false [] c) (hc : InvC c)
+    (hl : InvL bd t c) (tk : Token) : InvD false [] (handleEvent c tk).1 := by
+  have hcw : InvC (writeToStream c).1 := (Pres.of_core (core_writeToStream c) hc).1
+  unfold handleEvent
+  split
+  · rename_i r w
+    cases w <;> cases r <;> simp only [Bool.false_eq_true, ↓reduceIte]
+    all_goals (repeat' split)
+    all_goals first
+      | exact h
+      | exact invD_writeToStream h
+      | exact invD_readFromStream h hc
+      | exact invD_readFromStream (invD_writeToStream h) hcw
+  · exact h
+  · split
+    · exact invD_setBlockedLoop h _
+    · split <;> exact h
+  · split
+    · exact invD_allocateLoop h hc hl _
+    · split <;> exact h
+  · split
+    · exact invD_drainFifo h _ _
+    · split <;> exact h
+  · exact invD_drainFifo h _ _
+
+theorem invD_with_registered {d : Bool} {X : List Nat} {c : Conn} (h : InvD d X c) (b : Bool) :
+    InvD d X { c with registered := b } := by
+  d_same h
+
+theorem invD_with_srcs {d : Bool} {X : List Nat} {c : Conn} (h : InvD d X c) (a b : Src) :
+    InvD d X { c with allocSrc := a, blockedSrc := b } := by
+  d_same h
+
+theorem invD_deregisterAll {d : Bool} {X : List Nat} {c : Conn} (h : InvD d X c) :
+    InvD d X (deregisterAll c) := by
+  unfold deregisterAll
+  dsimp only
+  apply invD_with_registered
+  apply foldl_invariant (InvD d X)
+  · intro acc x ha
+    exact invD_setLink_keep ha _ _ rfl rfl
+  · exact h
+
+theorem invD_reregisterAll {d : Bool} {X : List Nat} {c : Conn} (h : InvD d X c) :
+    InvD d X (reregisterAll c) := by
+  unfold reregisterAll
+  dsimp only
+  apply invD_with_registered
+  apply foldl_invariant (InvD d X)
+  · intro acc x ha
+    exact invD_setLink_keep ha _ _ rfl rfl
+  · exact h
+
+theorem invD_pollAll {d : Bool} {X : List Nat} {c : Conn} (h : InvD d X c) :
+    InvD d X (pollAll c).1 := by
+  unfold pollAll
+  dsimp only
+  apply invD_with_srcs
+  apply foldl_invariant (fun (a : Conn × List PTok) => InvD d X a.1)
+  · intro acc x ha
+    exact invD_setLink_keep ha _ _ rfl rfl
+  · exact h
+
+/-! ### The end of the loop -/
+
+theorem getLink_dropSlotEnds' (c : Conn) (s : Slot) (lid : Nat) :
+    getLink (dropSlotEnds c s) lid =
+      if s.lid = lid then { (getLink c lid) with ioAlive := false, fifo := [] } else getLink c lid := by
+  unfold dropSlotEnds
+  dsimp only
+  rw [getLink_congr (foldl_dropConsTx_links' _ _), getLink_setLink]
+  split
+  · rename_i e; subst e; rfl
+  · rfl
+
+/-- Dropping the ends of every slot: nothing comes back, and the link of each slot is dead. -/
+theorem dropAll_dead (L : List (Nat × Slot)) (acc : Conn) :
+    (∀ lid, (getLink (L.foldl (fun a (p : Nat × Slot) => dropSlotEnds a p.2) acc) lid).ioAlive = true →
+      (getLink acc lid).ioAlive = true) ∧
+    (∀ p ∈ L, (getLink (L.foldl (fun a (p : Nat × Slot) => dropSlotEnds a p.2) acc) p.2.lid).ioAlive
+      = false) := by
+  induction L generalizing acc with
+  | nil => exact ⟨fun _ hl => hl, fun p hp => by cases hp⟩
+  | cons q r ih =>
+    obtain ⟨m1, m2⟩ := ih (dropSlotEnds acc q.2)
+    have step : ∀ lid, (getLink (dropSlotEnds acc q.2) lid).ioAlive = true →
+        (getLink acc lid).ioAlive = true ∧ q.2.lid ≠ lid := by
+      intro lid hlid
+      rw [getLink_dropSlotEnds'] at hlid
+      split at hlid
+      · cases hlid
+      · exact ⟨hlid, ‹_›⟩
+    refine ⟨fun lid hlid => (step lid (m1 lid hlid)).1, fun p hp => ?_⟩
+    rcases List.mem_cons.mp hp with e | hp
+    · subst e
+      cases hx : (getLink (List.foldl (fun a (p : Nat × Slot) => dropSlotEnds a p.2) acc (p :: r)) p.2.lid).ioAlive with
+      | false => rfl
+      | true => exact absurd rfl (step _ (m1 _ hx)).2
+    · exact m2 p hp
+
+theorem invD_kill {c : Conn} (h : InvD false [] c) : InvD true [] (kill c) := by
+  have h1 : InvD false [] (c.slots.foldl (fun acc (x : Nat × Slot) => dropSlotEnds acc x.2) c) :=
+    foldl_invariant (InvD false []) _ (fun a x ha => invD_dropSlotEnds_same ha x.2) _ _ h
+  have hs : (c.slots.foldl (fun acc (x : Nat × Slot) => dropSlotEnds acc x.2) c).slots = c.slots :=
+    (foldl_invariant (KeepL c) (fun acc (x : Nat × Slot) => dropSlotEnds acc x.2)
+      (fun a x ha => ha.trans (keepL_dropSlotEnds a _)) c.slots c (KeepL.refl c)).slots
+  obtain ⟨_, m2⟩ := dropAll_dead c.slots c
+  have h2 := invD_dropLink0 h1
+  unfold kill
+  dsimp only
+  refine ⟨rfl, h2.nodup, fun lid hlid => ?_, h2.ff, fun _ => ⟨rfl, ?_, rfl, rfl, rfl⟩⟩
+  · exfalso
+    replace hlid : (getLink (setLink (c.slots.foldl (fun acc (x : Nat × Slot) => dropSlotEnds acc x.2) c) 0
+      { (getLink (c.slots.foldl (fun acc (x : Nat × Slot) => dropSlotEnds acc x.2) c) 0) with
+        ioAlive := false, fifo := [] }) lid).ioAlive = true := hlid
+    rw [getLink_setLink] at hlid
+    split at hlid
+    · cases hlid
+    · rename_i hne
+      rcases h1.own lid hlid with e | e | e
+      · exact hne e.symm
+      · cases e
+      · rw [hs] at e
+        obtain ⟨p, hp, ep⟩ := List.mem_map.mp e
+        have := m2 p hp
+        rw [show p.2.lid = lid from ep, hlid] at this
+        cases this
+  · show (getLink (setLink (c.slots.foldl (fun acc (x : Nat × Slot) => dropSlotEnds acc x.2) c) 0
+      { (getLink (c.slots.foldl (fun acc (x : Nat × Slot) => dropSlotEnds acc x.2) c) 0) with
+        ioAlive := false, fifo := [] }) 0).ioAlive = false
+    rw [getLink_setLink_self]
+
+/-! ### `ioStep` -/
+
+/-- The invariant between operations. -/
+def DI (c : Conn) : Prop := InvD c.dead [] c
+
+theorem InvD.di {d : Bool} {c : Conn} (h : InvD d [] c) : DI c := by
+  unfold DI; rw [h.dead]; exact h
+
+theorem di_ioFin {c1 : Conn} (h : InvD false [] c1) (w : Option Bytes) (e : Option Err) :
+    DI (ioFin c1 w e).1 := by
+  cases e with
+  | none => exact h.di
+  | some e => exact (invD_kill h).di
+
+theorem di_ioStep {bd : Nat} {t : Bool} {c : Conn} (h : DI c) (hc : InvC c) (hl : InvL bd t c)
+    (o : IoOp) : DI (ioStep c o).1 := by
+  cases hd : c.dead with
+  | true => rw [(ioStep_dead hd o).1]; exact h
+  | false =>
+    have h0 : InvD false [] c := by unfold DI at h; rw [hd] at h; exact h
+    cases o with
+    | frame bytes => rw [ioStep_frame hd]; exact di_ioFin (invD_processBytes h0 hc bytes) _ _
+    | event tk => rw [ioStep_event hd]; exact di_ioFin (invD_handleEvent h0 hc hl tk) _ _
+    | write => rw [ioStep_write hd]; exact di_ioFin (invD_writeToStream h0) _ _
+    | done =>
+      rw [ioStep_done hd]
+      split
+      · exact h
+      · exact (invD_kill h0).di
+    | dereg => rw [ioStep_dereg hd]; exact (invD_deregisterAll h0).di
+    | rereg => rw [ioStep_rereg hd]; exact (invD_reregisterAll h0).di
+    | poll => rw [ioStep_poll hd]; exact (invD_pollAll h0).di
+    | kill => rw [ioStep_kill hd]; exact (invD_kill h0).di
+
+/-! ### Client operations -/
+
+theorem invD_newListener {d : Bool} {X : List Nat} {c : Conn} (h : InvD d X c) (l : Label) :
+    InvD d X (newListener c l) := by
+  unfold newListener; d_same h
+
+theorem invD_allocRequest {d : Bool} {X : List Nat} {c : Conn} (h : InvD d X c) (req : Option Nat) :
+    InvD d X (allocRequest c req).1 := by
+  unfold allocRequest
+  split
+  · exact h
+  · split
+    · exact h
+    · rename_i hio
+      split
+      · exact h
+      · cases d with
+        | false => d_same h
+        | true =>
+          have := (h.dz rfl).2.1
+          rw [this] at hio; simp at hio
+
+theorem invD_setBlockedRequest {d : Bool} {X : List Nat} {c : Conn} (h : InvD d X c) (l : Label) :
+    InvD d X (setBlockedRequest c l).1 := by
+  unfold setBlockedRequest
+  split
+  · exact h
+  · split
+    · exact h
+    · rename_i hio
+      split
+      · exact h
+      · cases d with
+        | false => d_same h
+        | true =>
+          have := (h.dz rfl).2.1
+          rw [this] at hio; simp at hio
+
+theorem invD_allocReply {d : Bool} {X : List Nat} {c : Conn} (h : InvD d X c) (label : Label) :
+    InvD d X (allocReply c label).1 := by
+  unfold allocReply
+  repeat' split
+  all_goals first | exact h | d_same h
+
+theorem invD_clientSend {d : Bool} {X : List Nat} {c : Conn} (h : InvD d X c) (label : Label) (m : Msg) :
+    InvD d X (clientSend c label m).1 := by
+  unfold clientSend
+  split
+  · exact h
+  · dsimp only
+    split
+    · exact h
+    · rename_i hio
+      split
+      · exact h
+      · refine invD_setLink h _ _ (fun hx => hx) (fun hx => ?_)
+        rw [show ({ (getLink c _) with fifo := _, src := _ } : Link).ioAlive = (getLink c _).ioAlive from rfl] at hx
+        rw [hx] at hio; simp at hio
+
+theorem invD_clientRecv {d : Bool} {X : List Nat} {c : Conn} (h : InvD d X c) (label cl : Label) :
+    InvD d X (clientRecv c label cl).1 := by
+  unfold clientRecv
+  split
+  · exact h
+  · dsimp only
+    split
+    · split <;> exact h
+    · rename_i lid _ _ _ _ _
+      have h1 := fun r => invD_setLink_keep h lid { (getLink c lid) with replies := r } rfl rfl
+      split
+      · exact (h1 _).same rfl rfl rfl rfl rfl rfl
+      · exact h1 _
+
+theorem invD_consRecv {d : Bool} {X : List Nat} {c : Conn} (h : InvD d X c) (cl : Label) :
+    InvD d X (consRecv c cl).1 := by
+  unfold consRecv
+  repeat' split
+  all_goals first | exact h | d_same h
+
+theorem invD_lstRecv {d : Bool} {X : List Nat} {c : Conn} (h : InvD d X c) (l : Label) :
+    InvD d X (lstRecv c l).1 := by
+  unfold lstRecv
+  repeat' split
+  all_goals first | exact h | d_same h
+
+theorem invD_dropCons {d : Bool} {X : List Nat} {c : Conn} (h : InvD d X c) (cl : Label) :
+    InvD d X (dropCons c cl) := by
+  unfold dropCons
+  repeat' split
+  all_goals first | exact h | d_same h
+
+theorem invD_dropListener {d : Bool} {X : List Nat} {c : Conn} (h : InvD d X c) (l : Label) :
+    InvD d X (dropListener c l) := by
+  unfold dropListener
+  repeat' split
+  all_goals first | exact h | d_same h
+
+theorem invD_dropHandle {d : Bool} {X : List Nat} {c : Conn} (h : InvD d X c) (label : Label) :
+    InvD d X (dropHandle c label) := by
+  unfold dropHandle
+  split
+  · exact h
+  · rename_i lid _
+    dsimp only
+    have h1 : InvD d X ((getLink c lid).replies.foldl dropReply c) :=
+      foldl_invariant (InvD d X) _ (fun a x ha => invD_dropReply ha x) _ _ h
+    have e : ∀ k, getLink ((getLink c lid).replies.foldl dropReply c) k = getLink c k := by
+      intro k
+      apply getLink_congr
+      apply foldl_invariant (fun a : Conn => a.links = c.links)
+      · intro a x ha
+        rw [← ha]; unfold dropReply; split
+        · split <;> rfl
+        · rfl
+      · rfl
+    have h2 := invD_setLink_keep h1 lid
+      { (getLink c lid) with clientAlive := false, replies := [], src := (getLink c lid).src.inc }
+      (by rw [e]) (by rw [e])
+    split
+    · exact h2.same rfl rfl rfl rfl rfl rfl
+    · exact h2.same rfl rfl rfl rfl rfl rfl
+
+theorem invD_clientStep {d : Bool} {X : List Nat} {c : Conn} (h : InvD d X c) (o : ClientOp) :
+    InvD d X (clientStep c o).1 := by
+  cases o with
+  | allocReq req => exact invD_allocRequest h req
+  | allocRep label => exact invD_allocReply h label
+  | send label m =>
+    unfold clientStep
+    dsimp only
+    split
+    · exact invD_clientSend (invD_newListener h _) label m
+    · exact invD_clientSend h label m
+  | setBlocked l => exact invD_setBlockedRequest (invD_newListener h l) l
+  | recv label cl => exact invD_clientRecv h label cl
+  | crecv cl => exact invD_consRecv h cl
+  | lrecv l => exact invD_lstRecv h l
+  | dropHandle label => exact invD_dropHandle h label
+  | dropCons cl => exact invD_dropCons h cl
+  | dropLst l => exact invD_dropListener h l
+
+theorem dropReply_dead (c : Conn) (r : Reply) : (dropReply c r).dead = c.dead := by
+  unfold dropReply
+  repeat' split
+  all_goals rfl
+
+theorem clientSend_dead (c : Conn) (label : Label) (m : Msg) : (clientSend c label m).1.dead = c.dead := by
+  unfold clientSend
+  split
+  · rfl
+  · dsimp only
+    repeat' split
+    all_goals rfl
+
+theorem clientRecv_dead (c : Conn) (label cl : Label) : (clientRecv c label cl).1.dead = c.dead := by
+  unfold clientRecv
+  split
+  · rfl
+  · dsimp only
+    repeat' split
+    all_goals rfl
+
+theorem dropHandle_dead (c : Conn) (label : Label) : (dropHandle c label).dead = c.dead := by
+  unfold dropHandle
+  split
+  · rfl
+  · rename_i lid _
+    dsimp only
+    have h1 : ((getLink c lid).replies.foldl dropReply c).dead = c.dead :=
+      foldl_invariant (fun a : Conn => a.dead = c.dead) _
+        (fun a x ha => (dropReply_dead a x).trans ha) _ _ rfl
+    split <;> exact h1
+
+theorem clientStep_dead (c : Conn) (o : ClientOp) : (clientStep c o).1.dead = c.dead := by
+  cases o with
+  | allocReq req =>
+    show (allocRequest c req).1.dead = c.dead
+    unfold allocRequest; repeat' split
+    all_goals rfl
+  | allocRep label =>
+    show (allocReply c label).1.dead = c.dead
+    unfold allocReply; repeat' split
+    all_goals rfl
+  | send label m =>
+    unfold clientStep
+    dsimp only
+    split
+    · exact clientSend_dead (newListener c _) label m
+    · exact clientSend_dead c label m
+  | setBlocked l =>
+    show (setBlockedRequest (newListener c l) l).1.dead = c.dead
+    unfold setBlockedRequest; repeat' split
+    all_goals rfl
+  | recv label cl => exact clientRecv_dead c label cl
+  | crecv cl =>
+    show (consRecv c cl).1.dead = c.dead
+    unfold consRecv; repeat' split
+    all_goals rfl
+  | lrecv l =>
+    show (lstRecv c l).1.dead = c.dead
+    unfold lstRecv; repeat' split
+    all_goals rfl
+  | dropHandle label => exact dropHandle_dead c label
+  | dropCons cl =>
+    show (dropCons c cl).dead = c.dead
+    unfold dropCons; repeat' split
+    all_goals rfl
+  | dropLst l =>
+    show (dropListener c l).dead = c.dead
+    unfold dropListener; repeat' split
+    all_goals rfl
+
+/-! ### `step`, `run` -/
+
+theorem di_step {bd : Nat} {c : Conn} (h : DI c) (hc : InvC c) (hl : InvL bd false c) (o : Op) :
+    DI (step c o) := by
+  cases o with
+  | io o => exact di_ioStep h hc hl o
+  | client o => exact (invD_clientStep h o).di
+  | decl d => exact InvD.di (d := c.dead) (c := { c with table := c.table ++ [d] }) (by d_same h)
+  | feed evs => exact InvD.di (d := c.dead) (c := { c with reads := c.reads ++ evs }) (by d_same h)
+  | wscript ws => exact InvD.di (d := c.dead) (c := { c with writes := c.writes ++ ws }) (by d_same h)
+
+theorem di_run {bd : Nat} {c : Conn} (h : DI c) (hc : InvC c) (hl : InvL bd false c) (ops : List Op) :
+    DI (run c ops) := by
+  induction ops generalizing c with
+  | nil => exact h
+  | cons o rest ih =>
+    exact ih (di_step h hc hl o) (invC_step hc o) (invL_step hl o (fun ht => by cases ht))
+
+theorem di_init (cm b : Nat) : DI (init cm b) := by
+  have e0 : ∀ lid, lid ≠ 0 → getLink (init cm b) lid = { chan := 0, ioAlive := false, clientAlive := false } := by
+    intro lid hl
+    unfold getLink init
+    simp only [lookupN_cons, lookupN_nil]
+    rw [if_neg (fun e => hl e.symm)]; rfl
+  refine ⟨rfl, by simp [init], fun lid hlid => ?_, fun lid hlid => ?_, fun hd => by cases hd⟩
+  · by_cases e : lid = 0
+    · exact Or.inl e
+    · rw [e0 lid e] at hlid; cases hlid
+  · by_cases e : lid = 0
+    · subst e; cases hlid
+    · rw [e0 lid e]
+
+/-- Every reachable state satisfies the invariant. -/
+theorem di_reachable (cm b : Nat) (ops : List Op) : DI (run (init cm b) ops) :=
+  di_run (di_init cm b) (invC_init cm b) (invL_init cm b) ops
+
+/-! ## 5. What a dead state looks like -/
+
+theorem dead_ok {c : Conn} (h : DI c) (hd : c.dead = true) : DeadOK c := by
+  unfold DI at h; rw [hd] at h; exact h.dz rfl
+
+/-- Every I/O end of a link is gone. -/
+theorem dead_links {c : Conn} (h : DI c) (hd : c.dead = true) (lid : Nat) :
+    (getLink c lid).ioAlive = false := by
+  obtain ⟨hs, h0, _⟩ := dead_ok h hd
+  cases hx : (getLink c lid).ioAlive with
+  | false => rfl
+  | true =>
+    rcases h.own lid hx with e | e | e
+    · subst e; rw [h0] at hx; cases hx
+    · cases e
+    · rw [hs] at e; cases e
+
+/-- Every FIFO towards the I/O thread is empty. -/
+theorem dead_fifos {c : Conn} (h : DI c) (hd : c.dead = true) : ∀ p ∈ c.links, p.2.fifo = [] := by
+  intro p hp
+  have e := getLink_of_mem h.nodup hp
+  rw [← e]
+  exact h.ff p.1 (dead_links h hd p.1)
+
+/-- Every consumer queue has lost its sender. -/
+theorem dead_cqs {c : Conn} (hc : InvC c) (hs : c.slots = []) (qid : Nat) (q : CQ)
+    (hq : lookupN qid c.cqs = some q) : q.txAlive = false := by
+  cases hx : q.txAlive with
+  | false => rfl
+  | true =>
+    have := hc.qi.alive_reg qid q hq hx
+    rw [hs] at this; cases this
+
+/-- Every listener queue has lost all its senders. -/
+theorem dead_lst {c : Conn} (h : DI c) (hd : c.dead = true) (l : Label) : lstTxAlive c l = false := by
+  obtain ⟨hs, _, _, hbf, hbl⟩ := dead_ok h hd
+  apply lstTxAlive_false
+  · rw [hbl]; intro e; cases e
+  · rw [hbf]; intro e; cases e
+  · rw [hs]; intro p hp; cases hp
+  · intro p hp m hm
+    rw [dead_fifos h hd p hp] at hm; cases hm
+
+/-! ## 6. The I/O thread never blocks -/
+
+/-! ### The reply queue of the connection's own handle under `process` -/
+
+/-- `X` has the same channel-0 reply queue as `c`. -/
+def R0 (c X : Conn) : Prop := (getLink X 0).replies = (getLink c 0).replies
+
+theorem R0.refl (c : Conn) : R0 c c := rfl
+
+theorem R0.of_links {c X X' : Conn} (h : R0 c X) (e : X'.links = X.links) : R0 c X' := by
+  unfold R0 at *; rw [getLink_congr e]; exact h
+
+theorem R0.of_eq_fst {β : Type} {c : Conn} {r : Conn × β} {c' : Conn} {x : β}
+    (h : R0 c r.1) (e : r = (c', x)) : R0 c c' := by subst e; exact h
+
+theorem sendCons_links' (c : Conn) (qid : Nat) (m : CMsg) : (sendCons c qid m).1.links = c.links := by
+  unfold sendCons
+  repeat' split
+  all_goals rfl
+
+theorem dropConsTx_links' (c : Conn) (qid : Nat) : (dropConsTx c qid).links = c.links := by
+  unfold dropConsTx
+  split <;> rfl
+
+theorem sendLst_links' (c : Conn) (l : Label) (m : LMsg) : (sendLst c l m).1.links = c.links := by
+  unfold sendLst
+  repeat' split
+  all_goals rfl
+
+theorem dropReply_links' (c : Conn) (r : Reply) : (dropReply c r).links = c.links := by
+  unfold dropReply
+  repeat' split
+  all_goals rfl
+
+theorem clientException_links' (c : Conn) (code : Nat) (text : Bytes) :
+    (clientException c code text).links = c.links := by
+  unfold clientException
+  simp [sealOut]
+
+theorem notifyConsumers_links' (m : CMsg) (c : Conn) (l : List (Bytes × Nat)) :
+    (notifyConsumers m c l).1.links = c.links := by
+  induction l generalizing c with
+  | nil => rfl
+  | cons x r ih =>
+    obtain ⟨t, qid⟩ := x
+    unfold notifyConsumers
+    have h1 := sendCons_links' c qid m
+    split
+    · rename_i heq; rw [heq] at h1; exact h1
+    · rename_i heq; rw [heq] at h1
+      rw [ih, dropConsTx_links', h1]
+
+theorem trySendBlocked_links' (c : Conn) (m : LMsg) : (trySendBlocked c m).links = c.links := by
+  unfold trySendBlocked
+  split
+  · rfl
+  · have h1 := sendLst_links' c ‹_› m
+    split
+    · rename_i heq; rw [heq] at h1; exact h1
+    · rename_i heq; rw [heq] at h1; exact h1
+
+theorem r0_dropSlotEnds {c X : Conn} (h : R0 c X) (s : Slot) : R0 c (dropSlotEnds X s) := by
+  unfold R0 at *
+  rw [getLink_dropSlotEnds']
+  split <;> exact h
+
+theorem r0_pushOut {c X : Conn} (h : R0 c X) (b : Bytes) : R0 c (pushOut X b) :=
+  h.of_links (pushOut_links X b)
+
+theorem r0_dropConsTx {c X : Conn} (h : R0 c X) (q : Nat) : R0 c (dropConsTx X q) :=
+  h.of_links (dropConsTx_links' X q)
+
+theorem r0_dropReply {c X : Conn} (h : R0 c X) (r : Reply) : R0 c (dropReply X r) :=
+  h.of_links (dropReply_links' X r)
+
+theorem r0_removeSlot {c X : Conn} (h : R0 c X) (n : Nat) : R0 c (removeSlot X n) :=
+  h.of_links rfl
+
+theorem r0_setSlot {c X : Conn} (h : R0 c X) (n : Nat) (s : Slot) : R0 c (setSlot X n s) :=
+  h.of_links rfl
+
+theorem r0_clientException {c X : Conn} (h : R0 c X) (code : Nat) (text : Bytes) :
+    R0 c (clientException X code text) :=
+  h.of_links (clientException_links' X code text)
+
+theorem r0_with_nondet {c X : Conn} (h : R0 c X) (b : Bool) :
+    R0 c { X with nondet := X.nondet || b } :=
+  h.of_links rfl
+
+theorem r0_dropCh0 {c X : Conn} (h : R0 c X) : R0 c (process.dropCh0 X) := by
+  unfold process.dropCh0
+  dsimp only
+  refine R0.of_links (X := setLink X 0 { (getLink X 0) with ioAlive := false, fifo := [] }) ?_ rfl
+  unfold R0 at *
+  rw [getLink_setLink_self]; exact h
+
+theorem r0_sendCons {c X : Conn} (h : R0 c X) (q : Nat) (m : CMsg) : R0 c (sendCons X q m).1 :=
+  h.of_links (sendCons_links' X q m)
+
+theorem r0_sendLst {c X : Conn} (h : R0 c X) (l : Label) (m : LMsg) : R0 c (sendLst X l m).1 :=
+  h.of_links (sendLst_links' X l m)
+
+theorem r0_notifyConsumers {c X : Conn} (h : R0 c X) (m : CMsg) (l : List (Bytes × Nat)) :
+    R0 c (notifyConsumers m X l).1 :=
+  h.of_links (notifyConsumers_links' m X l)
+
+theorem r0_sendReply {c X : Conn} {a : Nat} (ha : a ≠ 0) (h : R0 c X) (r : Reply) :
+    R0 c (sendReply X a r).1 := by
+  unfold sendReply
+  dsimp only
+  repeat' split
+  all_goals first
+    | exact h
+    | (unfold R0 at *; rw [getLink_setLink_ne _ ha]; exact h)
+
+theorem r0_trySendConfirm {c X : Conn} (h : R0 c X) (n : Nat) (slot : Slot) (m : LMsg) :
+    R0 c (trySendConfirm X n slot m) := by
+  unfold trySendConfirm
+  split
+  · exact h
+  · split
+    · rename_i heq; exact (r0_sendLst h _ _).of_eq_fst heq
+    · rename_i heq; exact r0_setSlot ((r0_sendLst h _ _).of_eq_fst heq) _ _
+
+theorem r0_dispatchContent {c X : Conn} (h : R0 c X) (n : Nat) (slot : Slot)
+    (hs : slot.lid ≠ 0) (ct : Content) : R0 c (dispatchContent X n slot ct).1 := by
+  unfold dispatchContent
+  split
+  · split
+    · exact h
+    · exact r0_sendCons h _ _
+  · split
+    · exact h
+    · split
+      · rename_i heq; exact (r0_sendLst h _ _).of_eq_fst heq
+      · rename_i heq; exact r0_setSlot ((r0_sendLst h _ _).of_eq_fst heq) _ _
+  · exact r0_sendReply hs h _
+
+theorem r0_afterCollect {c X : Conn} {slot : Slot} (hs : slot.lid ≠ 0) (h : R0 c X) (n : Nat)
+    (r : Res) : R0 c (afterCollect X n slot r).1 := by
+  unfold afterCollect
+  dsimp only
+  split
+  · exact r0_setSlot h _ _
+  · exact r0_setSlot h _ _
+  · refine r0_dispatchContent (r0_setSlot h _ _) _ _ ?_ _
+    exact hs
+
+/-- One backward step of a channel-0-reply-queue frame proof. `hne`/`hother` give `slot.lid ≠ 0`
+    for the slot looked up with `slotGet` / `lookupN`. -/
+macro "r0_step " hne:term ", " hother:term : tactic => `(tactic| first
+  | assumption
+  | with_reducible exact R0.refl _
+  | with_reducible apply r0_dropSlotEnds
+  | with_reducible apply r0_pushOut
+  | with_reducible apply r0_dropConsTx
+  | with_reducible apply r0_dropReply
+  | with_reducible apply r0_removeSlot
+  | with_reducible apply r0_setSlot
+  | with_reducible apply r0_clientException
+  | with_reducible apply r0_sendCons
+  | with_reducible apply r0_sendLst
+  | with_reducible apply r0_notifyConsumers
+  | with_reducible apply r0_trySendConfirm
+  | with_reducible apply r0_with_nondet
+  | (with_reducible refine r0_sendReply ?_ ?_ _; first | exact $hne _ (by assumption) | exact $hother _ (by assumption))
+  | (with_reducible refine r0_afterCollect ?_ ?_ _ _; first | exact $hne _ (by assumption) | exact $hother _ (by assumption))
+  | (apply R0.of_eq_fst; rotate_left; assumption; try dsimp only))
+
+macro "r0_auto " hne:term ", " hother:term : tactic =>
+  `(tactic| ((try dsimp only); repeat' (first | r0_step $hne, $hother | (split <;> try dsimp only))))
+
+theorem r0_processChannelMethod {c : Conn} {n : Nat}
+    (hother : ∀ slot, lookupN n c.slots = some slot → slot.lid ≠ 0)
+    (cls mid : Nat) (fields : List Field) (dbg : Bytes) :
+    R0 c (processChannelMethod c n cls mid fields dbg).1 := by
+  have hne : ∀ s, slotGet c n = .ok s → s.lid ≠ 0 := fun s h => hother s (slotGet_ok h)
+  unfold processChannelMethod
+  dsimp only
+  split
+  all_goals (repeat' split)
+  all_goals try r0_auto hne, hother
+  all_goals exact (R0.refl c).of_links rfl
+
+theorem process_ch0_method_rep0 {c : Conn} (hs : c.st = .steady) (cls mid : Nat) (fs : List Field)
+    (dc df : Bytes) : (process c (.method 0 cls mid fs) dc df).1.st = .steady →
+    R0 c (process c (.method 0 cls mid fs) dc df).1 := by
+  unfold process
+  split
+  all_goals first | (rename_i h; rw [hs] at h; cases h; done) | skip
+  split
+  all_goals first | (rename_i h; cases h; done) | skip
+  · dsimp only
+    intro hst
+    rw [(drainSlots_spec _ _ _).1] at hst
+    cases hst
+  · dsimp only
+    split
+    · exact fun _ => R0.refl c
+    · split
+      · exact fun _ => R0.refl c
+      · intro hst
+        rw [(drainSlots_spec _ _ _).1] at hst
+        cases hst
+  · exact fun _ => (R0.refl c).of_links (trySendBlocked_links' c _)
+  · exact fun _ => (R0.refl c).of_links (trySendBlocked_links' c _)
+  · intro hst; cases hst
+  · rename_i h0 heq
+    injection heq with e
+    exact absurd e.symm h0
+
+/-- While the connection stays `Steady`, `process` leaves the reply queue of the connection's own
+    handle alone (slots never use link 0). -/
+theorem process_rep0 {c : Conn} (h : Inv c) (f : Frame) (dc df : Bytes)
+    (hst : (process c f dc df).1.st = .steady) : R0 c (process c f dc df).1 := by
+  by_cases hs : c.st = .steady
+  · have hother : ∀ n slot, lookupN n c.slots = some slot → slot.lid ≠ 0 :=
+      fun n slot hl => h.slot_lid_ne_zero hl
+    cases f with
+    | heartbeat n => rw [process_heartbeat hs]; exact R0.refl c
+    | method n cls mid fields =>
+      by_cases hn : n = 0
+      · subst hn; exact process_ch0_method_rep0 hs cls mid fields dc df hst
+      · rw [process_method_ne0 hs hn]
+        have h1 := r0_processChannelMethod (hother n) cls mid fields dc
+        dsimp only
+        split
+        · exact r0_dropCh0 h1
+        · exact h1
+    | header n cid size props =>
+      by_cases hn : n = 0
+      · subst hn; rw [process_header0 hs] at hst; cases hst
+      · rw [process_header_ne0 hs hn]
+        split
+        · exact R0.refl c
+        · rename_i slot heq
+          exact r0_afterCollect (hother n slot (slotGet_ok heq)) (R0.refl c) _ _
+    | body n payload =>
+      by_cases hn : n = 0
+      · subst hn; rw [process_body0 hs] at hst; cases hst
+      · rw [process_body_ne0 hs hn]
+        split
+        · exact R0.refl c
+        · rename_i slot heq
+          exact r0_afterCollect (hother n slot (slotGet_ok heq)) (R0.refl c) _ _
+  · rw [process_fst_nonsteady hs]; exact R0.refl c
+
+
+/-! ### Never `.hang` -/
+
+/-- The room the CloseOk arm needs on the reply queue of the connection's own handle. -/
+def Room (c : Conn) : Prop := c.st = .steady → (getLink c 0).replies.length ≤ 1
+
+theorem nh_process_closeOk {c : Conn} (hr : Room c) (fs : List Field) (dc df : Bytes) :
+    (process c (.method 0 10 51 fs) dc df).2 ≠ some .hang := by
+  by_cases hs : c.st = .steady
+  · unfold process
+    split
+    all_goals first | (rename_i h; rw [hs] at h; cases h; done) | skip
+    split
+    all_goals first | (rename_i h; cases h; done) | skip
+    · dsimp only
+      split
+      · simp
+      · split
+        · rename_i hge
+          have := hr hs
+          omega
+        · exact nh_drainSlots _ _ _
+    · rename_i _ h51 _ _ heq
+      cases heq
+      exact (h51 rfl rfl).elim
+    · rename_i h0 heq
+      injection heq with e
+      exact absurd e.symm h0
+  · rcases process_snd_nonsteady hs (.method 0 10 51 fs) dc df with e | e <;> rw [e] <;> simp
+
+theorem nh_process_room (c : Conn) (f : Frame) (dc df : Bytes) (hr : Room c) :
+    (process c f dc df).2 ≠ some .hang := by
+  cases f with
+  | method ch cls mid fs =>
+    by_cases hck : ch = 0 ∧ cls = 10 ∧ mid = 51
+    · obtain ⟨e1, e2, e3⟩ := hck
+      subst e1; subst e2; subst e3
+      exact nh_process_closeOk hr fs dc df
+    · exact nh_process c _ dc df hck
+  | heartbeat ch => exact nh_process c _ dc df trivial
+  | header ch a b p => exact nh_process c _ dc df trivial
+  | body ch p => exact nh_process c _ dc df trivial
+
+theorem room_process {c : Conn} (h : Inv c) (hr : Room c) (f : Frame) (dc df : Bytes) :
+    Room (process c f dc df).1 := by
+  intro hst
+  by_cases hs : c.st = .steady
+  · rw [process_rep0 h f dc df hst]; exact hr hs
+  · rw [process_fst_nonsteady hs] at hst; exact absurd hst hs
+
+theorem room_processBytes {c : Conn} (h : Inv c) (hr : Room c) (bytes : Bytes) :
+    Room (processBytes c bytes).1 := by
+  unfold processBytes
+  split
+  · split
+    · exact room_process h hr _ _ _
+    · exact hr
+  · exact hr
+
+theorem nh_processBytes {c : Conn} (hr : Room c) (bytes : Bytes) :
+    (processBytes c bytes).2 ≠ some .hang := by
+  unfold processBytes
+  split
+  · split
+    · exact nh_process_room c _ _ _ hr
+    · simp
+  · simp
+
+theorem nh_readFromStream_go {c : Conn} (h : Inv c) (hr : Room c) (l : List Bytes) :
+    (readFromStream.go c l).2 ≠ some .hang := by
+  induction l generalizing c with
+  | nil => simp [readFromStream.go]
+  | cons fr rest ih =>
+    unfold readFromStream.go
+    split
+    · rename_i heq; exact nh_of_eq (nh_processBytes hr fr) heq
+    · rename_i heq
+      have h1 := (inv_processBytes h fr).of_eq_fst heq
+      have r1 := room_processBytes h hr fr
+      rw [heq] at r1
+      exact ih h1 r1
+
+theorem nh_readFromStream {c : Conn} (h : Inv c) (hr : Room c) :
+    (readFromStream c).2 ≠ some .hang := by
+  unfold readFromStream
+  dsimp only
+  split
+  · rename_i heq
+    refine nh_of_eq ?_ heq
+    apply nh_readFromStream_go
+    · inv_same h
+    · exact hr
+  · split <;> simp
+
+theorem writeLoop_links (fuel : Nat) (c : Conn) (pos : Nat) (w : Bytes) :
+    (writeLoop fuel c pos w).1.links = c.links := by
+  induction fuel generalizing c pos w with
+  | zero => rfl
+  | succ fuel ih =>
+    unfold writeLoop
+    split
+    · split
+      · rfl
+      · rfl
+      · rfl
+      · rw [ih]
+    · rfl
+
+theorem room_writeToStream {c : Conn} (hr : Room c) : Room (writeToStream c).1 := by
+  intro hst
+  rw [(writeToStream_spec c).1] at hst
+  have e : (writeToStream c).1.links = c.links := writeLoop_links _ _ _ _
+  rw [getLink_congr e]; exact hr hst
+
+theorem nh_handleEvent {c : Conn} (h : Inv c) (halloc : c.allocReq.length + c.allocRep.length ≤ 1)
+    (hr : Room c) (t : Token) : (handleEvent c t).2.2 ≠ some .hang := by
+  cases t with
+  | chan n => exact handleEvent_chan_no_hang c n
+  | setBlocked => exact handleEvent_setBlocked_no_hang c
+  | heartbeat => rw [handleEvent_heartbeat]; simp
+  | alloc =>
+    unfold handleEvent
+    split
+    all_goals first | (rename_i he; cases he; done) | skip
+    split
+    · exact allocateLoop_no_hang _ _ (by omega) halloc
+    · split <;> simp
+  | stream r w =>
+    unfold handleEvent
+    split
+    all_goals first | (rename_i he; cases he; done) | skip
+    rename_i r' w' he
+    cases he
+    cases w <;> cases r <;> simp only [Bool.false_eq_true, ↓reduceIte]
+    all_goals (repeat' split)
+    all_goals first
+      | (simp; done)
+      | exact nh_readFromStream h hr
+      | exact nh_readFromStream (inv_writeToStream h) (room_writeToStream hr)
+      | (rename_i heq; rw [← heq]; exact writeToStream_no_hang _)
+
+/-- No I/O step reports `hang`: reachable state, at most one allocation outstanding, room for one
+    more reply on the connection's own handle. -/
+theorem nh_ioStep {c : Conn} (h : Inv c) (halloc : c.allocReq.length + c.allocRep.length ≤ 1)
+    (hrep : (getLink c 0).replies.length ≤ 1) (o : IoOp) : (ioStep c o).2.err ≠ some .hang := by
+  have hr : Room c := fun _ => hrep
+  cases hd : c.dead with
+  | true => rw [(ioStep_dead hd o).2.1]; simp
+  | false =>
+    cases o with
+    | frame bytes => rw [ioStep_frame hd, ioFin_err]; exact nh_processBytes hr bytes
+    | event t => rw [ioStep_event hd, ioFin_err]; exact nh_handleEvent h halloc hr t
+    | write => rw [ioStep_write hd, ioFin_err]; exact writeToStream_no_hang c
+    | done => rw [ioStep_done hd]; split <;> simp
+    | dereg => rw [ioStep_dereg hd]; simp
+    | rereg => rw [ioStep_rereg hd]; simp
+    | poll => rw [ioStep_poll hd]; simp
+    | kill => rw [ioStep_kill hd]; simp
+
 end AmqModel.Conn.C05
